@@ -662,6 +662,13 @@ def sync_jobs(
     else:
         logger.debug(f"Synchronizing job '{src}'...")
 
+    if proxy.dry_run and not os.path.isdir(dst.path):
+        # A dry run must not create the destination job: only report the
+        # files that would be copied.
+        if os.path.isdir(src.path):
+            proxy.copytree(src.path, dst.path)
+        return
+
     if os.path.isdir(src.path):
         if not dry_run:
             dst.init()
